@@ -55,7 +55,14 @@ def auto_mutants():
     return out
 
 
-M = M + auto_mutants() + seeded_mutants() + refactor_controls()
+def equiv_controls():
+    """Behaviour-preserving single-line edits (operands of a commutative operator exchanged, a comparison mirrored), found
+    by tools/equiv.py: every check must stay silent on each."""
+    p = os.path.join(HERE, 'equiv_controls.json')
+    return json.load(open(p)) if os.path.exists(p) else []
+
+
+M = M + auto_mutants() + seeded_mutants() + refactor_controls() + equiv_controls()
 
 
 def run_one(mu, slot):
